@@ -415,7 +415,20 @@ func sameLenFamily(u ssa.Value) map[ssa.Value]bool {
 			for _, e := range x.Edges {
 				add(e, d+1)
 			}
+		case *ssa.Parameter:
+			// the argument at the function's only call site
+			if a := singleSiteArg(x); a != nil {
+				add(a, d+1)
+			}
 		case *ssa.Call:
+			// a helper of the module that returns its operand or an addressable copy of it: what it may return
+			if g := x.Call.StaticCallee(); g != nil && inModule(g) && len(g.Blocks) > 0 && g.Signature.Results().Len() == 1 {
+				for _, b := range g.Blocks {
+					if ret, ok := b.Instrs[len(b.Instrs)-1].(*ssa.Return); ok && len(ret.Results) == 1 {
+						add(ret.Results[0], d+1)
+					}
+				}
+			}
 			// Elem(New(Type(y)))
 			if recv, _, ok := reflectValueCall(x, "Elem"); ok {
 				if args, ok := reflectFunc(recv, "New"); ok && len(args) == 1 {
@@ -430,7 +443,86 @@ func sameLenFamily(u ssa.Value) map[ssa.Value]bool {
 	return fam
 }
 
+// singleSiteArg: the argument bound to parameter p at the only static call site of its function
+// (nil when there are several sites, or none, or the function's value is used otherwise).
+func singleSiteArg(p *ssa.Parameter) ssa.Value {
+	fn := p.Parent()
+	if fn == nil || fn.Pkg == nil {
+		return nil
+	}
+	idx := -1
+	for i, q := range fn.Params {
+		if q == p {
+			idx = i
+		}
+	}
+	if idx < 0 {
+		return nil
+	}
+	var site *ssa.Call
+	n := 0
+	for _, g := range functionsOf(fn.Pkg) {
+		for _, b := range g.Blocks {
+			for _, ins := range b.Instrs {
+				var buf [8]*ssa.Value
+				for _, op := range ins.Operands(buf[:0]) {
+					if op == nil || *op != ssa.Value(fn) {
+						continue
+					}
+					n++
+					if c, ok := ins.(*ssa.Call); ok && c.Call.StaticCallee() == fn {
+						site = c
+					} else {
+						return nil
+					}
+				}
+			}
+		}
+	}
+	if n != 1 || site == nil || idx >= len(site.Call.Args) {
+		return nil
+	}
+	return site.Call.Args[idx]
+}
+
+// crossNorm follows a value across the boundaries of single-use helpers: a parameter of a function
+// with one call site is the argument of that call; the call of a module function with a single
+// return statement is what that statement returns; a write-once captured variable is its value.
+func crossNorm(v ssa.Value) ssa.Value {
+	for i := 0; i < 8 && v != nil; i++ {
+		switch x := v.(type) {
+		case *ssa.Parameter:
+			if a := singleSiteArg(x); a != nil {
+				v = a
+				continue
+			}
+		case *ssa.Call:
+			g := x.Call.StaticCallee()
+			if g != nil && inModule(g) && len(g.Blocks) > 0 && g.Signature.Results().Len() == 1 {
+				var rets []*ssa.Return
+				for _, b := range g.Blocks {
+					if ret, ok := b.Instrs[len(b.Instrs)-1].(*ssa.Return); ok {
+						rets = append(rets, ret)
+					}
+				}
+				if len(rets) == 1 && len(rets[0].Results) == 1 {
+					v = rets[0].Results[0]
+					continue
+				}
+			}
+		case *ssa.UnOp:
+			if sv := cellValue(x); sv != nil {
+				v = sv
+				continue
+			}
+		}
+		break
+	}
+	return v
+}
+
 func isLenOf(v ssa.Value, fam map[ssa.Value]bool) bool {
+	v = crossNorm(v)
 	recv, _, ok := reflectValueCall(v, "Len")
 	return ok && fam[recv]
 }
@@ -457,7 +549,9 @@ func c19Partition(r *Run, ic *iterCopy) []string {
 	}
 	size := ssa.Value(fn.Params[0])
 	// ---- guards, by paths: size <= 0 and non-sequences are errors before anything is computed
-	paths, complete := walkPaths(fn, nil, nil)
+	paths, complete := walkPaths(fn, nil, func(caller, callee *ssa.Function) bool {
+		return callee.Pkg == fn.Pkg && callee.Object() != nil && !callee.Object().Exported() && !funcHasLoop(callee)
+	})
 	okSize, okKind := complete, complete
 	nSizeErr, nKindErr := 0, 0
 	for _, p := range paths {
@@ -572,11 +666,21 @@ func c19Partition(r *Run, ic *iterCopy) []string {
 	feats = append(feats, fmt.Sprintf("groupBy.kindGuard=%v", okKind))
 	// ---- the partition loop on the value graph
 	var slices []*ssa.Call
-	for _, b := range fn.Blocks {
-		for _, ins := range b.Instrs {
-			if c, ok := ins.(*ssa.Call); ok {
+	reachFns := []*ssa.Function{fn}
+	seenFn := map[*ssa.Function]bool{fn: true}
+	for i := 0; i < len(reachFns) && i < 16; i++ {
+		for _, b := range reachFns[i].Blocks {
+			for _, ins := range b.Instrs {
+				c, ok := ins.(*ssa.Call)
+				if !ok {
+					continue
+				}
 				if _, args, ok := reflectValueCall(c, "Slice"); ok && len(args) == 2 {
 					slices = append(slices, c)
+				}
+				if g := c.Call.StaticCallee(); g != nil && g.Pkg == fn.Pkg && len(g.Blocks) > 0 && !seenFn[g] && g.Object() != nil && !g.Object().Exported() {
+					seenFn[g] = true
+					reachFns = append(reachFns, g)
 				}
 			}
 		}
@@ -588,7 +692,8 @@ func c19Partition(r *Run, ic *iterCopy) []string {
 	sl := slices[0]
 	u, args, _ := reflectValueCall(sl, "Slice")
 	fam := sameLenFamily(u)
-	lo, hi := args[0], args[1]
+	lo, hi := crossNorm(args[0]), crossNorm(args[1])
+	nv := crossNorm
 	isLen := func(v ssa.Value) bool { return isLenOf(v, fam) }
 	// lo: induction variable phi(0, lo + g)
 	var g ssa.Value
@@ -601,9 +706,9 @@ func c19Partition(r *Run, ic *iterCopy) []string {
 				continue
 			}
 			if bo, ok := e.(*ssa.BinOp); ok && bo.Op == token.ADD && bo.X == ssa.Value(loPhi) {
-				g, step = bo.Y, true
+				g, step = nv(bo.Y), true
 			} else if ok && bo.Op == token.ADD && bo.Y == ssa.Value(loPhi) {
-				g, step = bo.X, true
+				g, step = nv(bo.X), true
 			}
 		}
 		if len(loPhi.Edges) != 2 {
@@ -616,7 +721,7 @@ func c19Partition(r *Run, ic *iterCopy) []string {
 	clamp := false
 	isEnd := func(v ssa.Value) bool {
 		bo, ok := v.(*ssa.BinOp)
-		return ok && bo.Op == token.ADD && g != nil && ((bo.X == lo && bo.Y == g) || (bo.X == g && bo.Y == lo))
+		return ok && bo.Op == token.ADD && g != nil && ((nv(bo.X) == lo && nv(bo.Y) == g) || (nv(bo.X) == g && nv(bo.Y) == lo))
 	}
 	if hp, ok := hi.(*ssa.Phi); ok && len(hp.Edges) == 2 && step {
 		var e, l ssa.Value
@@ -667,11 +772,11 @@ func c19Partition(r *Run, ic *iterCopy) []string {
 		hb := loPhi.Block()
 		if ifi, ok := hb.Instrs[len(hb.Instrs)-1].(*ssa.If); ok {
 			if bo, ok := ifi.Cond.(*ssa.BinOp); ok {
-				lt := (bo.Op == token.LSS && bo.X == lo && isLen(bo.Y)) || (bo.Op == token.GTR && isLen(bo.X) && bo.Y == lo)
+				lt := (bo.Op == token.LSS && nv(bo.X) == lo && isLen(bo.Y)) || (bo.Op == token.GTR && isLen(bo.X) && nv(bo.Y) == lo)
 				if lt && blockReaches(hb.Succs[0], sl.Block(), false) {
 					whileOK = true
 				}
-				ge := (bo.Op == token.GEQ && bo.X == lo && isLen(bo.Y)) || (bo.Op == token.LEQ && isLen(bo.X) && bo.Y == lo)
+				ge := (bo.Op == token.GEQ && nv(bo.X) == lo && isLen(bo.Y)) || (bo.Op == token.LEQ && isLen(bo.X) && nv(bo.Y) == lo)
 				if ge && blockReaches(hb.Succs[1], sl.Block(), false) {
 					whileOK = true
 				}
@@ -684,7 +789,7 @@ func c19Partition(r *Run, ic *iterCopy) []string {
 	if gp, ok := g.(*ssa.Phi); ok && len(gp.Edges) == 2 {
 		var q, q1 ssa.Value
 		for _, e := range gp.Edges {
-			if bo, ok := e.(*ssa.BinOp); ok && bo.Op == token.QUO && isLen(bo.X) && bo.Y == size {
+			if bo, ok := e.(*ssa.BinOp); ok && bo.Op == token.QUO && isLen(bo.X) && nv(bo.Y) == size {
 				q = e
 			}
 		}
@@ -704,7 +809,7 @@ func c19Partition(r *Run, ic *iterCopy) []string {
 				test := pr.Preds[0]
 				if ifi, ok := test.Instrs[len(test.Instrs)-1].(*ssa.If); ok {
 					if bo, ok := ifi.Cond.(*ssa.BinOp); ok && (bo.Op == token.NEQ || bo.Op == token.GTR) && test.Succs[0] == pr {
-						if rem, ok := bo.X.(*ssa.BinOp); ok && rem.Op == token.REM && isLen(rem.X) && rem.Y == size {
+						if rem, ok := bo.X.(*ssa.BinOp); ok && rem.Op == token.REM && isLen(rem.X) && nv(rem.Y) == size {
 							if c, ok := bo.Y.(*ssa.Const); ok && c.Value != nil && constant.Sign(c.Value) == 0 {
 								ceil = true
 							}
@@ -713,11 +818,11 @@ func c19Partition(r *Run, ic *iterCopy) []string {
 				}
 			}
 		}
-	} else if bo, ok := g.(*ssa.BinOp); ok && bo.Op == token.QUO && bo.Y == size {
+	} else if bo, ok := g.(*ssa.BinOp); ok && bo.Op == token.QUO && nv(bo.Y) == size {
 		// (Len + size - 1) / size
 		if a, ok := bo.X.(*ssa.BinOp); ok && a.Op == token.SUB {
 			if c, ok := a.Y.(*ssa.Const); ok && c.Value != nil && constant.Compare(c.Value, token.EQL, constant.MakeInt64(1)) {
-				if s, ok := a.X.(*ssa.BinOp); ok && s.Op == token.ADD && ((isLen(s.X) && s.Y == size) || (isLen(s.Y) && s.X == size)) {
+				if s, ok := a.X.(*ssa.BinOp); ok && s.Op == token.ADD && ((isLen(s.X) && nv(s.Y) == size) || (isLen(s.Y) && nv(s.X) == size)) {
 					div, ceil = true, true
 				}
 			}
@@ -764,17 +869,8 @@ func c19Partition(r *Run, ic *iterCopy) []string {
 		}
 	}
 	check("append u.Slice(pos,e)", appended, "the sub-slice [pos, e) of the sequence is appended to the groups in order")
-	// R5: the array is made addressable before Slice
-	addr := false
-	if ph, ok := u.(*ssa.Phi); ok {
-		for _, e := range ph.Edges {
-			if recv, _, ok := reflectValueCall(e, "Elem"); ok {
-				if args, ok := reflectFunc(recv, "New"); ok && len(args) == 1 {
-					addr = true
-				}
-			}
-		}
-	}
+	// R5: the array is made addressable before Slice (the panic ledger's proof for this Slice call)
+	addr, _ := newLedger(w, sl.Parent()).sliceable(u, sl.Block())
 	if addr {
 		r.Ok("R5", name, "array made addressable before Slice", pos, "an array that cannot be addressed is copied into reflect.New(type).Elem() first")
 	} else {
@@ -924,6 +1020,35 @@ func c19LenSSA(r *Run) {
 						}
 						return false, true // some other concrete type: none of the classes
 					}
+				case *ssa.Lookup:
+					// table[Kind(v)] for a constant map[reflect.Kind]bool
+					if x.CommaOk {
+						return false, false
+					}
+					ld, isLd := p.resolve(x.X).(*ssa.UnOp)
+					if !isLd {
+						return false, false
+					}
+					g, isG := ld.X.(*ssa.Global)
+					if !isG {
+						return false, false
+					}
+					t := constTablesOf(g.Pkg)[g]
+					recv, _, isKind := reflectValueCall(p.resolve(x.Index), "Kind")
+					if t == nil || !isKind || !isBasicKind(t.valType, types.Bool) {
+						return false, false
+					}
+					kk := lenKindOf(p, recv, param, c)
+					if kk < 0 {
+						return false, false
+					}
+					if tv, found := t.lookup(constant.MakeInt64(int64(kk))); found {
+						if cv, isC := tv.(*ssa.Const); isC && cv.Value != nil && cv.Value.Kind() == constant.Bool {
+							return constant.BoolVal(cv.Value), true
+						}
+						return false, false
+					}
+					return false, true
 				case *ssa.Call:
 					if recv, _, isV := reflectValueCall(x, "IsValid"); isV {
 						if kk := lenKindOf(p, recv, param, c); kk >= 0 {
